@@ -74,7 +74,9 @@ class Hook:
         d, impl = e1cyc.compare(ctx, "E1_kFlowDecompCycles_LP", m, e1cyc.kfdc_request(m, args))
         given = (args.get("optimization_options") or {}).get("given_weights")
         if cls.log is not None:
-            cls.log.append({"k": args["k"], "given": given is not None, "status": None, "model": m, "rows": len(impl["rows"])})
+            cls.log.append({"k": args["k"], "given": given is not None, "status": None, "model": m, "rows": len(impl["rows"]),
+                            "kw": {key: args.get(key) for key in ("subset_constraints", "subset_constraints_coverage", "elements_to_ignore",
+                                                                   "additional_starts", "additional_ends", "flow_attr", "weight_type")}})
         ctx.dist("E1 route:" + ("given-weights" if given is not None else "plain"))
         wf = getattr(m, "walks_to_fix", None) or []
         if wf: ctx.dist("E1 walks_to_fix non-empty")
@@ -309,6 +311,65 @@ def e4_search(ctx, args, res):
     return ok
 
 
+def e4_inner_kwargs(ctx, args, res):
+    """every kFlowDecompCycles that MinFlowDecompCycles.solve builds (the given-weights model AND the model of each k) must be
+    constructed with the caller's subset constraints, coverage, ignore list, additional starts / ends, flow attribute and
+    weight type: the answer of either is returned as the answer of the outer model without any re-check"""
+    want = {"subset_constraints": [list(map(tuple, c)) for c in (args.get("subset_constraints") or [])],
+            "subset_constraints_coverage": args.get("subset_constraints_coverage", 1.0),
+            "elements_to_ignore": sorted(map(tuple, args.get("elements_to_ignore") or [])),
+            "additional_starts": sorted(args.get("additional_starts") or []), "additional_ends": sorted(args.get("additional_ends") or []),
+            "flow_attr": args["flow_attr"], "weight_type": args.get("weight_type", int)}
+    for r in res.get("log") or []:
+        kw = r.get("kw") or {}
+        got = {"subset_constraints": [list(map(tuple, c)) for c in (kw.get("subset_constraints") or [])],
+               "subset_constraints_coverage": 1.0 if kw.get("subset_constraints_coverage") is None else kw.get("subset_constraints_coverage"),
+               "elements_to_ignore": sorted(map(tuple, kw.get("elements_to_ignore") or [])),
+               "additional_starts": sorted(kw.get("additional_starts") or []), "additional_ends": sorted(kw.get("additional_ends") or []),
+               "flow_attr": kw.get("flow_attr"), "weight_type": kw.get("weight_type") or float}
+        ctx.count("E4_inner_model_arguments", "models")
+        bad = [key for key in want if want[key] != got[key]]
+        if bad:
+            ctx.count("E4_inner_model_arguments", "disagreements")
+            if ctx.engines["E4_inner_model_arguments"]["disagreements"] > 3:      # keep room for concrete failing inputs
+                return False
+            which = "given-weights model" if r["given"] else "model for k=%d" % r["k"]
+            ctx.report(f"E4: the {which} built by MinFlowDecompCycles.solve is not constructed with the caller's {', '.join(bad)}",
+                       {"kind": "e4-kwargs", "class": "MinFlowDecompCycles", "args": describe(args), "inner": {b: str(got[b]) for b in bad},
+                        "outer": {b: str(want[b]) for b in bad}, "given_weights_model": r["given"]}, concrete=False)
+            return False
+        ctx.count("E4_inner_model_arguments", "agreements")
+    return True
+
+
+def hub_instance(rng):
+    """n in-branches and n out-branches through a hub m, the in-flows are pairwise different and the out-flows are a
+    permutation of them, so the unconstrained minimum pairs equal values (n walks, weights = flow values: exactly what the
+    guessed-weights heuristic finds); optionally the hub carries a self-loop or a 2-cycle traversed once by every walk.
+    ONE subset constraint pairs an in-branch with an out-branch of a DIFFERENT value: it cannot be realised by the
+    unconstrained optimum and raises the minimum.  Returns (G, constraints)."""
+    n = rng.choice([2, 2, 3])
+    vals = rng.sample([1, 2, 3, 4], n)
+    perm = vals[:]; rng.shuffle(perm)
+    cyc = rng.choice(["none", "loop", "two"]) if n == 2 else rng.choice(["none", "loop"])
+    total = sum(vals)
+    es = [("a%d" % i, "m", vals[i]) for i in range(n)] + [("m", "c%d" % j, perm[j]) for j in range(n)]
+    if cyc == "loop":
+        es.append(("m", "m", total))
+    elif cyc == "two":
+        es += [("m", "x", total), ("x", "m", total)]
+    rng.shuffle(es)
+    G = nx.DiGraph()
+    for u, v, f in es:
+        G.add_edge(u, v, flow=f)
+    pairs = [(i, j) for i in range(n) for j in range(n) if vals[i] != perm[j]]
+    i, j = rng.choice(pairs)
+    cons = [[("a%d" % i, "m"), ("m", "c%d" % j)]]
+    if rng.random() < 0.3:
+        cons.append([("a%d" % i, "m")])
+    return G, cons
+
+
 def check_minimality(ctx, args, res, flow, kind, label=""):
     """compare the implementation's number of walks with the exhaustive search; classify differences"""
     G = args["G"]; cons = args.get("subset_constraints", []); cov = args.get("subset_constraints_coverage", 1.0)
@@ -395,6 +456,43 @@ def selfloop_instance(rng):
         return G, walks, vals
 
 
+def guessed_weight_opts(rng, force=False):
+    """the guessed-weights route of MinFlowDecompCycles with its satellites"""
+    if not force and rng.random() < 0.5:
+        return {}
+    o = {"optimize_with_guessed_weights": True}
+    r = rng.random()
+    if r < 0.35:
+        o["optimize_with_given_weights_num_free_walks"] = rng.choice([0, 1, 1, 2])
+    if rng.random() < 0.35:
+        o["use_min_gen_set_lowerbound"] = True
+        o["add_min_gen_set_to_given_weights"] = rng.random() < 0.7
+    return o
+
+
+def scaled_loop_instance(rng):
+    """1-2 source branches into a node a whose self-loop (or 2-cycle) is traversed m >= 2 times by the first branch's walk, so
+    that the cycle value m*v EXCEEDS the total source flow; all values multiplied by a factor c with a fractional result
+    (float weights).  The minimum is the number of branches (they leave the source in parallel; the explicit walks below
+    decompose the flow).  Exercises lower bounds / caps that are derived from flow VALUES (fractional maxima, value > total).
+    Returns (G, witness walks, witness weights, number of branches)."""
+    nb = rng.choice([1, 2]); m = rng.choice([2, 3, 3]); v = rng.choice([1, 1, 3]); u = rng.choice([x for x in (1, 2, 3) if x != v])
+    c = rng.choice([F(5, 2), F(3, 2), F(5, 4)]); two = rng.random() < 0.4
+    loopw = ["a", "b"] * m + ["a"] if two else ["a"] * (m + 1)
+    walks = [["s", "x0"] + loopw + ["t"]]; ws = [v * c]
+    if nb == 2:
+        walks.append(["s", "x1", "a", "t"]); ws.append(u * c)
+    f = {}
+    for w, q in zip(walks, ws):
+        for e in zip(w, w[1:]):
+            f[e] = f.get(e, F(0)) + q
+    es = list(f); rng.shuffle(es)
+    G = nx.DiGraph()
+    for e in es:
+        G.add_edge(*e, flow=float(f[e]))
+    return G, walks, [float(q) for q in ws], nb
+
+
 def staged_instance(b1, b2, loop):
     """2 stages of parallel branches through a hub m (b1 branches into m, b2 out of it), unit weight per combination, and
     ALL b1*b2 pairwise subset constraints {first-stage branch edge, second-stage branch edge}: a walk uses one branch per
@@ -424,7 +522,7 @@ def run(ctx):
     import flowpaths as fp
     lpdump.install(); Hook.install(); Hook.ctx = ctx; Hook.e1_broken = False; Hook.e1_reports = 0
     ctx.rule = ("digraphs with cycles (<= 5 nodes, <= 9 edges; 80% with a cycle; self-loops, several sources/sinks) with flows = "
-                "superpositions of 1-3 weighted walks (int / dyadic float); self-loop family (DAG skeleton + self-loops, distinct branch values, min-gen-set lower bound on) and staged-branch family with all pairwise subset constraints (minimum = product of branch counts); kFlowDecompCycles with random k, ignore lists, subset "
+                "superpositions of 1-3 weighted walks (int / dyadic float); self-loop family (DAG skeleton + self-loops, distinct branch values, min-gen-set lower bound on) and staged-branch family with all pairwise subset constraints (minimum = product of branch counts; also on the guessed-weights route), hub family (one subset constraint pairing branches of different values, guessed weights / free walks / min-gen-set satellites), scaled-cycle family (cycle value above the source flow, fractional values); kFlowDecompCycles with random k, ignore lists, subset "
                 "constraints (coverage 1 / 0.5 / 0.75), the 64 safety option vectors, given weights; MinFlowDecompCycles incl. guessed "
                 "weights / min-gen-set lower bound; tiny instances (<= 6 edges, flows <= 3) against the exhaustive search; scale factors "
                 "1/4 1/2 2 2.5 4; non-trivial = LP with >= 2 layers or a cycle, or a solved instance with >= 2 walks")
@@ -434,7 +532,7 @@ def run(ctx):
         nonlocal _t0
         _marks[name] = round(_t.time() - _t0, 1); _t0 = _t.time()
     # ---- A: stand-alone kFlowDecompCycles: E1 on all option vectors, E2 on every solution
-    nA = ctx.budget(150, 3000)
+    nA = ctx.budget(110, 3000)
     for i in range(nA):
         rng = ctx.rng("kfdc", i)
         G, walks, ws, is_int = gen2.rand_flow_cyclic(rng)
@@ -473,7 +571,7 @@ def run(ctx):
 
     _mark('A')
     # ---- B: MinFlowDecompCycles: E1 per k tried, E4 search, E2 solution, minimality on tiny instances
-    nB = ctx.budget(70, 1500)
+    nB = ctx.budget(60, 1500)
     for i in range(nB):
         rng = ctx.rng("mfdc", i)
         tiny = rng.random() < 0.7
@@ -490,7 +588,7 @@ def run(ctx):
         if "error" in res:
             ctx.report("MinFlowDecompCycles raised " + res["error"], {"kind": "crash", "class": "MinFlowDecompCycles", "args": describe(args)}); continue
         ctx.dist("mfdc:" + ("solved k=%d" % res["k"] if res["solved"] else "unsolved"))
-        e4_search(ctx, args, res)
+        e4_search(ctx, args, res); e4_inner_kwargs(ctx, args, res)
         if res["solved"]:
             check_solution(ctx, "MinFlowDecompCycles", args, res["sol"])
         if tiny and not ign:
@@ -510,11 +608,11 @@ def run(ctx):
 
     _mark('B')
     # ---- C: scale invariance (float weights): same solvability, same number of walks
-    nC = ctx.budget(16, 300)
+    nC = ctx.budget(14, 300)
     for i in range(nC):
         rng = ctx.rng("scale", i)
         G, walks, ws = tiny_instance(rng)
-        opts = gen2.rand_walk_opts(rng) if rng.random() < 0.5 else {}
+        opts = dict(gen2.rand_walk_opts(rng)) if rng.random() < 0.5 else {}
         base = dict(G=scaled(G, F(1)), flow_attr="flow", weight_type=float, optimization_options=dict(opts), solver_options={"threads": THREADS})
         r1 = solve_mfdc(ctx, base)
         if "error" in r1:
@@ -565,7 +663,7 @@ def run(ctx):
         if "error" in res:
             ctx.report("MinFlowDecompCycles raised " + res["error"], {"kind": "crash", "class": "MinFlowDecompCycles", "args": describe(args)}); continue
         ctx.dist("selfloop:" + ("solved k=%d" % res["k"] if res["solved"] else "unsolved"))
-        e4_search(ctx, args, res)
+        e4_search(ctx, args, res); e4_inner_kwargs(ctx, args, res)
         if res["solved"]:
             check_solution(ctx, "MinFlowDecompCycles", args, res["sol"])
         flow = {(u, v): F(d["flow"]) * c for u, v, d in G.edges(data=True)}
@@ -573,6 +671,31 @@ def run(ctx):
         ctx.case(["selfloop", describe(args)], nontrivial=True)
 
     _mark('F')
+    # ---- F2: a cycle value that exceeds the total source flow, scaled to fractional values, lower-bound options on
+    for i in range(ctx.budget(8, 200)):
+        rng = ctx.rng("scaledloop", i)
+        G, wwalks, wws, nb = scaled_loop_instance(rng)
+        opts = dict(gen2.rand_walk_opts(rng)) if rng.random() < 0.3 else {}
+        if i % 4 != 3:
+            opts["use_min_gen_set_lowerbound"] = True
+        opts.update(guessed_weight_opts(rng) if rng.random() < 0.3 else {})
+        args = dict(G=G, flow_attr="flow", weight_type=float, optimization_options=opts, solver_options={"threads": THREADS})
+        res = solve_mfdc(ctx, args)
+        if "error" in res:
+            ctx.report("MinFlowDecompCycles raised " + res["error"], {"kind": "crash", "class": "MinFlowDecompCycles", "args": describe(args)}); continue
+        ctx.count("E2_scaled_cycle_family", "cases")
+        e4_search(ctx, args, res); e4_inner_kwargs(ctx, args, res)
+        if res["solved"]:
+            check_solution(ctx, "MinFlowDecompCycles", args, res["sol"])
+        if res["solved"] and res["k"] == nb:
+            ctx.count("E2_scaled_cycle_family", "agreements")
+        elif props.walk_decomposition_ok(G, "flow", wwalks, wws, float) is None and not presolve_false_infeasible(ctx, res):
+            ctx.report(f"MinFlowDecompCycles {'returns %d walks' % res['k'] if res['solved'] else 'is unsolved'} (float weights) but {nb} walks decompose the flow "
+                       "(a cycle value above the total source flow, fractional values)",
+                       {"kind": "scaledloop", "class": "MinFlowDecompCycles", "args": describe(args), "smaller_decomposition": {"walks": wwalks, "weights": wws},
+                        "expected_walks": nb})
+        ctx.case(["scaledloop", describe(args)], nontrivial=True)
+
     # ---- G: staged branches with all pairwise subset constraints: the minimum is the product of the branch counts
     shapes = [(2, 3, False), (2, 2, False), (3, 2, True), (1, 3, False), (2, 2, True), (2, 3, True), (3, 2, False), (1, 2, True)]
     nG = ctx.budget(3, 40)
@@ -581,6 +704,7 @@ def run(ctx):
         b1, b2, loop = shapes[(i + ctx.seed) % len(shapes)] if i < len(shapes) else rng.choice(shapes)
         G, cons, T = staged_instance(b1, b2, loop)
         opts = dict(gen2.rand_walk_opts(rng)) if rng.random() < 0.4 else {}
+        opts.update(guessed_weight_opts(rng, force=(i % 2 == 1)))
         is_int = rng.random() < 0.7
         args = dict(G=G, flow_attr="flow", weight_type=int if is_int else float, subset_constraints=cons, optimization_options=opts,
                     solver_options={"threads": THREADS})
@@ -588,7 +712,7 @@ def run(ctx):
         if "error" in res:
             ctx.report("MinFlowDecompCycles raised " + res["error"], {"kind": "crash", "class": "MinFlowDecompCycles", "args": describe(args)}); continue
         ctx.count("E2_staged_constraints", "cases")
-        e4_search(ctx, args, res)
+        e4_search(ctx, args, res); e4_inner_kwargs(ctx, args, res)
         if res["solved"]:
             check_solution(ctx, "MinFlowDecompCycles", args, res["sol"])
         if res["solved"] and res["k"] == T:
@@ -601,6 +725,29 @@ def run(ctx):
         ctx.case(["staged", b1, b2, loop, describe(args)["optimization_options"], is_int], nontrivial=True)
 
     _mark('G')
+    # ---- H: a subset constraint that pairs branches of DIFFERENT generating walks (raises the optimum), with the
+    #         guessed-weights route on: minimality (exhaustive search), constraint realised (C10's clause), E4 inner arguments
+    nH = ctx.budget(10, 300)
+    for i in range(nH):
+        rng = ctx.rng("hub", i)
+        G, cons = hub_instance(rng)
+        opts = dict(gen2.rand_walk_opts(rng)) if rng.random() < 0.35 else {}
+        opts.update(guessed_weight_opts(rng, force=(i % 4 != 3)))
+        is_int = rng.random() < 0.75
+        args = dict(G=(G if is_int else scaled(G, F(1), as_float=True)), flow_attr="flow", weight_type=int if is_int else float,
+                    subset_constraints=cons, optimization_options=opts, solver_options={"threads": THREADS})
+        res = solve_mfdc(ctx, args)
+        if "error" in res:
+            ctx.report("MinFlowDecompCycles raised " + res["error"], {"kind": "crash", "class": "MinFlowDecompCycles", "args": describe(args)}); continue
+        ctx.dist("hub:" + ("solved k=%d" % res["k"] if res["solved"] else "unsolved") + (" guessed" if opts.get("optimize_with_guessed_weights") else ""))
+        e4_search(ctx, args, res); e4_inner_kwargs(ctx, args, res)
+        if res["solved"]:
+            check_solution(ctx, "MinFlowDecompCycles", args, res["sol"])
+        flow = {(u, v): F(d["flow"]) for u, v, d in G.edges(data=True)}
+        check_minimality(ctx, args, res, flow, "int" if is_int else "real", label=" (hub family: constraint pairing branches of different values)")
+        ctx.case(["hub", describe(args)], nontrivial=True)
+    _mark('H')
+
     # ---- D: the witness of Props/C04.v (WalkExamples.loop_inst) replayed on the implementation
     witness_replay(ctx)
 
@@ -667,7 +814,7 @@ def replay(ctx, body):
         res = solve_mfdc(ctx, args)
         if "error" in res:
             return True
-        e4_search(ctx, args, res)
+        e4_search(ctx, args, res); e4_inner_kwargs(ctx, args, res)
         if res["solved"]:
             check_solution(ctx, "MinFlowDecompCycles", args, res["sol"])
         flow = {(u, v): F(d["flow"]) for u, v, d in args["G"].edges(data=True)}
@@ -678,6 +825,8 @@ def replay(ctx, body):
             rc = solve_mfdc(ctx, a2)
             if (rc.get("solved"), rc.get("k")) != (res["solved"], res["k"]):
                 return True
+        if kind == "scaledloop":
+            return not (res["solved"] and res["k"] == body.get("expected_walks"))
         if kind == "staged":
             return not (res["solved"] and res["k"] == body.get("expected_walks"))
         if kind == "unsolved" and not res["solved"]:
